@@ -394,7 +394,7 @@ func RunCheck(run *ev.Run, prop string, m Mode, nQuick, nThorough int, nullableH
 			}
 			fc := &Case{G: c.G, Named: c.Named, Layout: c.Layout, Nil: c.Nil, PtrDis: c.PtrDis, Inputs: [][]int{vs[i].Bad}, Lox: c.Lox}
 			detail := vs[i].Detail
-			if len(vs[i].Bad) > 0 || true {
+			if !strings.Contains(detail, "TIMEOUT") {
 				fc = Shrink(run, fc, m, prop)
 				if v2, err := Eval(run, []*Case{fc}, m, false, prop); err == nil && v2[0].Bad != nil {
 					detail = v2[0].Detail
